@@ -46,6 +46,7 @@ META = {'design_ref': 'DESIGN.md section 7 / C15',
                'mon_c15 (an offline-policy failure only hits a kind the policy rejects; after a close every retained operation is of a preserved kind or an '
                'in-flight QoS>=1 publish awaiting resubmission) and mon_c15_submit (a submission made while the engine is not Connected — Disconnected, '
                'PendingConnack, PendingDisconnect, Halted — of a rejected kind is failed with the offline-policy error within the submitting call, and no '
-               'other submission is).',
+               'other submission is). mon_c15_inflight: a QoS 1/2 publish completely transmitted in the current session is never failed with the '
+               'offline-policy error unless a CONNACK of that very call reported the session gone (the mandated exception).',
  'technique': 'machine-checked proof in Coq over the engine model + lock-step correspondence of the extracted model with the implementation + extracted '
               'monitors on the implementation trace'}
